@@ -41,6 +41,12 @@ CHECKS = {
          "Every gather of every world is checked for payload/type agreement; the dedicated workload registers different kinds under one name and requires a hash-seed independent type. The one listed known finding (gather merges same-name collectors of different kinds) is reported as KNOWN-FINDING; any other signature is a violation.", "4/C14, 7/F7", SEQ_NOTE),
  "C15": ("bijection monitor: id <-> (name, const values in name order) and dim_hash <-> (help, label-name sets) over generated descriptors",
          "Descriptors built from boundary-shifted pools with random insertion orders and hasher states; both tables must be functions in both directions.", "4/C15", SEQ_NOTE),
+ "C16": ("differential monitor: one seeded scenario interpreter built with and without the protobuf feature, dump streams compared",
+         "The same clock-free single-threaded scenarios (all metric kinds, registries with prefix/common labels, removals, resets, local flushes, custom summary/histogram families with timestamps) run in both builds; every gather/collect is dumped through getters common to both data models together with the TextEncoder bytes and the two streams must be identical.", "4/C16",
+         "Trusted base: the scenario interpreter and its canonical dump (harness/xbuild), the accessor shim between the two models (value() vs get_value()); error messages are not compared because they embed the Debug form of the model structs."),
+ "C19": ("generated client programs: seeded macro declarations compiled against /repo, every accessor path driven and the backing vector compared with the generator's model; valgrind memcheck on the auto-flush accessors",
+         "Quantifies over programs: declarations from the grammar (1-4 labels x 1-4 values, inline/enum/renamed values, eight metric types, three auto-flush types, permuted backing vectors) are generated per run, compiled and executed; each leaf is updated through field paths, get(enum) and try_get(str) mixes with unique amounts. The pointer-offset delegators of the auto-flush expansion additionally run under memcheck, where a wrong offset that leaves the thread-local struct is an invalid read.", "4/C19",
+         "Trusted base: tools/gen_static.py (declaration + expected model), harness/staticgen compare(); value identifiers avoid the expansion's own locals (hygiene issue recorded in DESIGN.md); Miri cannot execute the auto-flush expansion."),
  "C17": ("fault-injection sweep under catch_unwind: pool arguments for every Result API, arbitrary families, writer failing at every byte",
          "Panics are caught and attributed; Err is required for the documented invalid classes; the failing-writer fault point is enumerated completely per sampled input (every k up to the output length, capped at 1500 in quick).", "4/C17", SEQ_NOTE),
  "C18": ("reference-model monitor over random timer histories incl. cross-thread moves",
@@ -49,10 +55,7 @@ CHECKS = {
          "Descriptor fields, buckets, target registry, handle identity (update visible through the registry) and Err on the second registration are compared for each of the ~130 arms (with and without trailing comma).", "4/C20", SEQ_NOTE),
 }
 
-NOT_APPLICABLE = [
- {"property_id": "C16", "reason": "check under construction in this round (two-feature-set differential build); will be claimed once its command exists"},
- {"property_id": "C19", "reason": "check under construction in this round (generated static-metric programs); will be claimed once its command exists"},
-]
+NOT_APPLICABLE = []
 
 def main():
     checks = []
@@ -64,7 +67,7 @@ def main():
             "thorough_cmd": "./run.sh %s thorough" % pid,
             "evidence_file": "/verif/evidence/%s.json" % pid,
             "replay_cmd_template": "./run.sh replay {path}",
-            "engine": "conc" if pid in ("C01", "C02", "C03", "C10", "C11") else "seq",
+            "engine": "conc" if pid in ("C01", "C02", "C03", "C10", "C11") else ("xbuild" if pid == "C16" else ("staticgen" if pid == "C19" else "seq")),
             "level_claimed": {"category": "fault_enumeration" if pid == "C17" else "exploration", "text": text, "design_ref": "DESIGN.md section " + ref},
             "level_note": note,
             "technique": "runtime monitoring: " + tech,
@@ -81,7 +84,9 @@ def main():
         },
         "engines": [
             {"name": "conc", "path": "harness/conc", "serves_properties": ["C01", "C02", "C03", "C10", "C11"], "kind_free_text": "E1 perturbed native threads, E2 seeded token-passing scheduler over the verif_sync shim with trace monitors (happens-before, progress), E3 Miri on the unguarded build; client-boundary histories checked by digit-decoding oracles and a Wing-Gong-Lowe search"},
-            {"name": "seq", "path": "harness/seq", "serves_properties": sorted(p for p in CHECKS if p not in ("C01", "C02", "C03", "C10", "C11")), "kind_free_text": "E4 reference-model / differential monitors driven by seeded adversarial generators; E5 exposition invariant monitors on every gather"},
+            {"name": "seq", "path": "harness/seq", "serves_properties": sorted(p for p in CHECKS if p not in ("C01", "C02", "C03", "C10", "C11", "C16", "C19")), "kind_free_text": "E4 reference-model / differential monitors driven by seeded adversarial generators; E5 exposition invariant monitors on every gather"},
+            {"name": "xbuild", "path": "harness/xbuild", "serves_properties": ["C16"], "kind_free_text": "scenario interpreter built twice (protobuf / plain data model) with canonical dumps, compared by tools/c16_shard.py"},
+            {"name": "staticgen", "path": "harness/staticgen + tools/gen_static.py", "serves_properties": ["C19"], "kind_free_text": "E6 generated client programs for the static-metric macros, run natively and (auto-flush) under valgrind memcheck"},
             {"name": "orchestrator", "path": "tools/run_check.py", "serves_properties": sorted(CHECKS), "kind_free_text": "builds the harness from /repo's working tree, shards engine processes, merges parts into evidence, filters known findings, decides exit code"},
         ],
         "checks": checks,
